@@ -48,10 +48,10 @@ type dnAlter struct {
 }
 
 type dnResult struct {
-	nodes   []*dnNode
-	hang    bool
-	steps   int
-	views   [][][][]byte // views[step][recipient][sender]
+	nodes []*dnNode
+	hang  bool
+	steps int
+	views [][][][]byte // views[step][recipient][sender]
 }
 
 func dnRun(e *sgEnv, insts []*sgInst, choices [][]int, seeds [][]byte, alter *dnAlter) *dnResult {
@@ -140,7 +140,7 @@ func c14Deniable(t *sgRun, envs []*sgEnv) {
 	c := t.c
 	type vcase struct {
 		line, got, kind, env string
-		replay              map[string]any
+		replay               map[string]any
 	}
 	var plines []string
 	type pref struct {
